@@ -256,19 +256,22 @@ def targetOf (tgt : String) : Str :=
 def isH2Awkward (n : Str) : Bool := n = str "Cookie" || n = connKey || n = str "Keep-Alive" || n = str "Upgrade" ||
   n = str "Proxy-Connection" || n = str "Te"
 
-/-- pauses of the flights of a case: shot number `j` (seq: position in the case; par: position among the gun's own
-shots) is sent `gap` after the shot before it; `last g` = number of the gun's latest shot that arrived -/
-def pausesFrom (gap : Nat) (par : Bool) : List (Nat × Bool) → Nat → List (Nat × Option Nat) → List Nat
-  | [], _, _ => []
-  | (g, arrived) :: rest, j, last =>
+/-- pauses of the flights of a case: shot number `j` (seq: position in the case; par / volleys: position among the gun's own
+shots) is sent `gap` after the shot before it; in seq mode the shots of the OTHER guns in between take their time too (`delay`
+each, when they arrive). `last g` = (number of the gun's latest shot that arrived, arrived shots of the case up to and
+including it) -/
+def pausesFrom (gap delay : Nat) (par : Bool) : List (Nat × Bool) → Nat → Nat → List (Nat × Option (Nat × Nat)) → List Nat
+  | [], _, _, _ => []
+  | (g, arrived) :: rest, j, na, last =>
     let own := if par then ((last.filter fun p => p.1 == g).length) else j
     let prev := (last.find? fun p => p.1 == g).bind (·.2)
     let pause := match prev with
-      | some k => (own - k) * gap
+      | some (k, nk) => (own - k) * gap + (if par then 0 else (na - nk) * delay)
       | none => 0
-    let last' := if arrived then (g, some own) :: last
+    let na' := if arrived then na + 1 else na
+    let last' := if arrived then (g, some (own, na')) :: last
                  else (g, prev) :: last
-    pause :: pausesFrom gap par rest (j + 1) last'
+    pause :: pausesFrom gap delay par rest (j + 1) na' last'
 
 /-- the gun's config as the harness writes it, option by documented name (durations in ns) -/
 def transportOpts (c : Case) : List TransportOpt :=
@@ -348,7 +351,7 @@ def handleRun (c : Case) (impl : String) : String × String :=
     let pools := match pool with
       | none => c.inst
       | some n => if sharedVol then c.inst else n.toNat
-    let pauses := pausesFrom (c.gap * 1000000) conc (gunsOf.zip arrived) 0 []
+    let pauses := pausesFrom (c.gap * 1000000) (c.delay * 1000000) conc (gunsOf.zip arrived) 0 0 []
     let flights := ((shots.zip arrived).zip (gunsOf.zip pauses)).map fun (p, gp) =>
       ({ gun := gp.1, arrived := p.2, close := p.1.close, pause := gp.2, delay := c.delay * 1000000 } : TFlight)
     let tr := transportOf (transportOpts c)
